@@ -439,7 +439,34 @@ PURE_EXCEPTIONS = {
 }
 
 
-def r_writer_pure(model, rep):
+SHALLOW_COPIES = ("sorted", "list", "tuple", "reversed", "iter", "enumerate", "filter", "set", "frozenset")
+
+
+def shared_root(t):
+    """root of an access path, looking through shallow copies: an *element* of sorted(X) / list(X) / reversed(X) is the very
+    object stored in X (the copy itself is a fresh list)"""
+    below_element = False
+    while isinstance(t, tuple) and t:
+        k = t[0]
+        if k in ("attr", "sub", "idx", "elem"):
+            below_element = below_element or k in ("sub", "idx", "elem")
+            t = t[1]
+        elif k == "call":
+            fn = t[1]
+            if fn[0] == "global" and fn[1] in SHALLOW_COPIES and t[2] and below_element:
+                t = t[2][0]
+            elif fn[0] == "attr":
+                t = fn[1]
+            else:
+                return None
+        elif k in ("param", "global", "bound", "local"):
+            return t
+        else:
+            return None
+    return None
+
+
+def r_writer_pure(model, rep, only=None):
     """writers store to object state only constants (or the current version): repeated dumps cannot diverge"""
     n = 0
     funcs = writer_functions(model) + [model.own_method("common.MetadataBase", "dump"), model.own_method("common.MetadataBase", "dumps"),
@@ -447,13 +474,16 @@ def r_writer_pure(model, rep):
                                        model.own_method("extra_files.ExtraFiles", "dump_for_tree")]
     seen = set()
     for f in funcs:
-        if f in seen:
+        if f in seen or (only is not None and not f.qname.startswith(only)):
             continue
         seen.add(f)
         cx = facts.fctx(model, f)
         S = P(cx.selfname)
         bad = []
         for ev in cx.events:
+            if ev.kind in ("store", "del") and T.root_of(ev.target) != S and shared_root(ev.target) == S:
+                n += 1
+                bad.append("line %s: %s (an element of a copied list is the stored object itself)" % (ev.lineno, T.show(ev.target)[:90]))
             if ev.kind in ("store", "del") and T.root_of(ev.target) == S:
                 n += 1
                 allowed = PURE_EXCEPTIONS.get((f.qname, T.show(ev.target)))
@@ -465,7 +495,8 @@ def r_writer_pure(model, rep):
                 bad.append("line %s: %s.%s()" % (ev.lineno, T.show(ev.value[1][1]), ev.value[1][2]))
         rep.ob("R-WRITER-PURE", f.qname, not bad, site=cx.site(f.node),
                msg="" if not bad else "the writer changes object state: %s" % "; ".join(bad))
-    rep.floor("R-WRITER-PURE", 25)
+    if only is None:
+        rep.floor("R-WRITER-PURE", 25)
 
 
 @register("C08")
